@@ -4,16 +4,22 @@ use super::{first_non_space_byte_index, skip_chars};
 
 const MAXC: usize = 3;
 
-struct SymStr {
+/// MAXC characters, B = 4 * MAXC bytes, O = MAXC + 1 offsets (spelled out: no generic_const_exprs)
+struct SymStrN<const MAXC: usize, const B: usize, const O: usize> {
     chars: [char; MAXC],
     n: usize,
-    bytes: [u8; 4 * MAXC],
+    bytes: [u8; B],
     blen: usize,
     /// byte offset at which char i starts (off[n] = blen)
-    off: [usize; MAXC + 1],
+    off: [usize; O],
 }
+type SymStr = SymStrN<3, 12, 4>;
 fn any_str() -> SymStr {
-    let mut s = SymStr { chars: ['a'; MAXC], n: kani::any(), bytes: [0; 4 * MAXC], blen: 0, off: [0; MAXC + 1] };
+    any_str_n::<3, 12, 4>()
+}
+fn any_str_n<const MAXC: usize, const B: usize, const O: usize>() -> SymStrN<MAXC, B, O> {
+    assert!(B == 4 * MAXC && O == MAXC + 1);
+    let mut s = SymStrN::<MAXC, B, O> { chars: ['a'; MAXC], n: kani::any(), bytes: [0; B], blen: 0, off: [0; O] };
     kani::assume(s.n <= MAXC);
     let mut i = 0;
     while i < MAXC {
@@ -79,4 +85,49 @@ fn chars_first_non_space_any_text() {
     assert!(got.map(|x| x.0) == got.map(|x| x.1), "mutant oracle (char index == byte index): must be refuted");
     kani::cover!(matches!(got, Some((1, 3))), "a 3-byte whitespace character before the first non-space");
     kani::cover!(got.is_none() && s.n == 3, "all whitespace");
+}
+
+// ---- thorough tier: the same two obligations on texts of up to 5 arbitrary Unicode scalar values
+const DEEP: usize = 5;
+
+#[kani::proof]
+#[kani::unwind(23)]
+fn chars_n5_skip_chars() {
+    let s = any_str_n::<5, 20, 6>();
+    let text = unsafe { core::str::from_utf8_unchecked(&s.bytes[..s.blen]) };
+    let k: usize = kani::any();
+    kani::assume(k <= DEEP + 2);
+    let rest = skip_chars(text, k);
+    let skipped = if k < s.n { k } else { s.n };
+    #[cfg(not(verif_mutant))]
+    assert!(rest.len() == s.blen - s.off[skipped], "C08: skip_chars returns the text after min(k, len) characters");
+    #[cfg(verif_mutant)]
+    assert!(rest.len() == s.blen - skipped, "mutant oracle (counts bytes, not chars): must be refuted");
+    // the returned slice is the TAIL of the input (same end address), not just a slice of the right length
+    #[cfg(not(verif_mutant))]
+    assert!(rest.as_ptr() as usize + rest.len() == text.as_ptr() as usize + text.len(), "C08: skip_chars returns a suffix of the text");
+    kani::cover!(s.n == 5 && k == 4 && s.blen == 20, "skipping over four 4-byte characters");
+    kani::cover!(k > s.n, "asked to skip more characters than there are");
+}
+
+#[kani::proof]
+#[kani::unwind(23)]
+fn chars_n5_first_non_space() {
+    let s = any_str_n::<5, 20, 6>();
+    let text = unsafe { core::str::from_utf8_unchecked(&s.bytes[..s.blen]) };
+    let got = first_non_space_byte_index(text);
+    let mut want: Option<(usize, usize)> = None;
+    let mut i = 0;
+    while i < s.n {
+        if want.is_none() && !s.chars[i].is_whitespace() {
+            want = Some((i, s.off[i]));
+        }
+        i += 1;
+    }
+    #[cfg(not(verif_mutant))]
+    assert!(got == want, "C08: first_non_space_byte_index == (char index, byte index) of the first non-space character");
+    #[cfg(verif_mutant)]
+    assert!(got.map(|x| x.0) == got.map(|x| x.1), "mutant oracle (char index == byte index): must be refuted");
+    kani::cover!(matches!(got, Some((4, 12))), "four 3-byte whitespace characters before the first non-space");
+    kani::cover!(got.is_none() && s.n == 5, "all whitespace");
 }
